@@ -88,6 +88,7 @@ fn fold<F: Fn(Id) -> Option<u32>>(n: &Ar, get: F) -> Option<u32> {
         Ar::Add(a, b) => Some((get(a.id)? + get(b.id)?) % CP),
         Ar::Mul(a, b) => Some((get(a.id)? * get(b.id)?) % CP),
         Ar::Neg(a) => Some((CP - get(a.id)?) % CP),
+        Ar::Sub(a, b) => Some((get(a.id)? + CP - get(b.id)?) % CP),
         _ => None,
     }
 }
